@@ -57,7 +57,11 @@ pub mod accuracy;
 pub mod auc;
 /// Compute the homogeneity, completeness and V-Measure scores.
 pub mod cluster_hcv;
+#[cfg(not(smartcore_verif))]
 pub(crate) mod cluster_helpers;
+#[cfg(smartcore_verif)]
+#[allow(missing_docs)]
+pub mod cluster_helpers;
 /// F1 score, also known as balanced F-score or F-measure.
 pub mod f1;
 /// Mean absolute error regression loss.
